@@ -16,6 +16,41 @@ contains `ctx.online = online_mode`), negation, conjunction, disjunction and opa
 atoms, computed from the enclosing if/elif/else chain, conditional expressions,
 short-circuit and/or, while tests and assert.
 
+Path conditions -- what is computed and why it is sound.  The formula attached to a sink
+is IMPLIED by "control reaches the sink" (so: formula false when online => sink unreachable
+when online).  It is a conjunction of facts each of which must hold on every path to the
+sink; conjuncts are only ever dropped, never invented.
+ 1. Enclosing tests: inside the body / else of `if C`, `while C`, `A if C else B`, after
+    `C and ...` / `C or ...`, the message of `assert C`: the usual branch condition.
+ 2. Early exits: after a statement `if C: <block that cannot fall through>` (its last
+    statement is return / raise / continue / break, or an if/else both of whose branches
+    cannot fall through) the REST OF THE SAME BLOCK is under `not C`; symmetrically under
+    `C` when only the else branch cannot fall through.  The rest runs only if the `if`
+    completed normally, i.e. the non-returning branch was taken.  Nothing is propagated
+    out of the block (after a try / with / loop the extra conjunct is dropped).
+ 3. Atoms.  A test that is not about the mode becomes an opaque atom.  One atom per
+    EVALUATION SITE (AST node): two textually equal tests get different atoms, because the
+    value may have changed in between -- except when the test is a comparison over
+    constants and parameters of the enclosing top-level function that are never stored,
+    deleted, shadowed, passed to a call, or used as the base of an attribute / subscript
+    anywhere in it (`"c" in flags`): then equal text = equal value = one atom.  Inside a
+    loop a node is evaluated many times; every conjunct refers to the latest evaluation
+    on the way to the sink, and a node occurs once on a path, so this is consistent.
+ 4. The mode atom `online`: ctx.online / self.online; online_mode inside a function that
+    does `ctx.online = online_mode` and never rebinds it; a local assigned exactly once by
+    `x = ctx.online`; `bool(...)` of these; `E is/== True/False`, `E is not/!= True/False`
+    for such an E (the flag is a bool: obligation on the writes to `.online`, and
+    execute_vyxal's callers pass a bool).  It is ONE atom for the whole program: the mode
+    does not change during a run (same obligation) and every function works on the run's
+    context (the ctx-forwarding obligation covers helpers with a default context).
+ 5. Nested def / lambda: its body is analysed on its own (with its own early exits) under
+    the condition of the place where the def / lambda is evaluated -- the closure exists
+    only if that place was reached.
+ 6. Module-level helper called only under a guard: see apply_helper_rule (private name,
+    defined once, every use is a direct call, named in no string; else nothing is added).
+The Coq side decides `formula false when online` by a syntactic check or, for formulas
+without FUnknown and at most 12 atoms, by trying every assignment (proved sound).
+
 Fail-closed:
 * a condition that is not understood becomes an opaque atom (the guard check treats
   atoms as unknown) or FUnknown (match statements, code strings that do not parse);
@@ -161,6 +196,28 @@ def must_false(f):
     return False
 
 
+def sat_excludes(f):
+    """python replica of Model/Online.v sat_excludes (summary only)"""
+    import itertools
+    names = []
+    atoms_of(f, names)
+    if "Unk" in repr(f) or len(names) > 12:
+        return False
+
+    def ev(g, env):
+        k = g[0]
+        if k == "T" or k == "On":
+            return True
+        if k == "Atom":
+            return env[g[1]]
+        if k == "Not":
+            return not ev(g[1], env)
+        if k == "And":
+            return ev(g[1], env) and ev(g[2], env)
+        return ev(g[1], env) or ev(g[2], env)
+    return not any(ev(f, dict(zip(names, bits))) for bits in itertools.product((True, False), repeat=len(names)))
+
+
 def must_true(f):
     k = f[0]
     if k in ("T", "On"):
@@ -220,20 +277,130 @@ class Walker:
         self.online_writes = online_writes
         self.fnodes = []              # stack of enclosing function/lambda nodes
         self.online_param_ok = False  # inside a function with `ctx.online = online_mode`
+        self.node_atoms = {}          # id(test node) -> atom (a node has ONE atom however often it is translated)
+        self.stable_cache = {}        # id(outermost function) -> names that cannot change in it
+        self.alias_cache = {}         # id(outermost function) -> local names that are `= ctx.online`, assigned once
+        self.calls = []               # (callee bare name, path condition of the call) for the helper rule
+        self.mentions = set()         # names used other than as the callee of a direct call
+        self.strings = []             # every string constant (a helper named in one may be called from generated code)
 
     # -- conditions -------------------------------------------------------
+    def stable_names(self):
+        """Parameters of the outermost enclosing function that cannot change value or
+        content while it runs: never stored / deleted / augmented anywhere in it (nested
+        functions included), and every load is an operand of a comparison, of and/or/not,
+        a test, or the iterable of a for -- never a call argument, never the base of an
+        attribute or subscript (so no method can mutate the object through this name)."""
+        if not self.fnodes:
+            return frozenset()
+        f = self.fnodes[0]
+        if id(f) in self.stable_cache:
+            return self.stable_cache[id(f)]
+        params = set()
+        if isinstance(f, (ast.FunctionDef, ast.AsyncFunctionDef, ast.Lambda)):
+            a = f.args
+            params = {x.arg for x in a.posonlyargs + a.args + a.kwonlyargs}
+        bad = set()
+        parent = {}
+        for n in ast.walk(f):
+            for c in ast.iter_child_nodes(n):
+                parent[id(c)] = n
+            if isinstance(n, (ast.Global, ast.Nonlocal)):
+                bad |= set(n.names)
+            if n is not f and isinstance(n, (ast.FunctionDef, ast.AsyncFunctionDef, ast.Lambda)):
+                a = n.args
+                bad |= {x.arg for x in a.posonlyargs + a.args + a.kwonlyargs}   # shadowed in a nested scope
+                if a.vararg:
+                    bad.add(a.vararg.arg)
+                if a.kwarg:
+                    bad.add(a.kwarg.arg)
+        for n in ast.walk(f):
+            if isinstance(n, ast.Name) and n.id in params:
+                par = parent.get(id(n))
+                ok = isinstance(n.ctx, ast.Load) and (
+                    isinstance(par, (ast.Compare, ast.BoolOp))
+                    or (isinstance(par, ast.UnaryOp) and isinstance(par.op, ast.Not))
+                    or (isinstance(par, (ast.If, ast.While, ast.IfExp, ast.Assert)) and par.test is n)
+                    or (isinstance(par, (ast.For, ast.AsyncFor)) and par.iter is n))
+                if not ok:
+                    bad.add(n.id)
+        out = frozenset(params - bad)
+        self.stable_cache[id(f)] = out
+        return out
+
+    def is_stable_expr(self, node):
+        """a comparison (or a bare name) over constants and stable parameters only"""
+        st = self.stable_names()
+        if isinstance(node, ast.Name):
+            return node.id in st
+        if isinstance(node, ast.Compare):
+            return all(isinstance(x, ast.Constant) or (isinstance(x, ast.Name) and x.id in st) for x in [node.left] + node.comparators)
+        return False
+
     def atom(self, node):
+        if id(node) in self.node_atoms:
+            return self.node_atoms[id(node)]
         try:
             text = ast.unparse(node)
         except Exception:  # noqa: BLE001
             return UNK
-        return ("Atom", " ".join(text.split())[:120])
+        text = " ".join(text.split())[:100]
+        if self.is_stable_expr(node):
+            # same text in the same function = same value: one atom
+            label = text + "  [stable in " + getattr(self.fnodes[0], "name", "<lambda>") + "]"
+        else:
+            # the value may differ between two evaluations: one atom per evaluation site
+            self.serial[0] += 1
+            label = f"{text}  [{self.file}:{getattr(node, 'lineno', 0) + self.line_base} #{self.serial[0]}]"
+        a = ("Atom", label)
+        self.node_atoms[id(node)] = a
+        return a
+
+    def online_aliases(self):
+        """local names assigned exactly once in the outermost function, by `name = ctx.online`"""
+        if not self.fnodes:
+            return frozenset()
+        f = self.fnodes[0]
+        if id(f) in self.alias_cache:
+            return self.alias_cache[id(f)]
+        stores, good = {}, set()
+        params = local_names(f) if isinstance(f, ast.Lambda) else {x.arg for x in f.args.posonlyargs + f.args.args + f.args.kwonlyargs}
+        for n in ast.walk(f):
+            if isinstance(n, ast.Name) and isinstance(n.ctx, (ast.Store, ast.Del)):
+                stores[n.id] = stores.get(n.id, 0) + 1
+            if isinstance(n, (ast.Global, ast.Nonlocal)):
+                for x in n.names:
+                    stores[x] = stores.get(x, 0) + 2
+            if n is not f and isinstance(n, (ast.FunctionDef, ast.AsyncFunctionDef, ast.Lambda)):
+                for x in n.args.posonlyargs + n.args.args + n.args.kwonlyargs:
+                    stores[x.arg] = stores.get(x.arg, 0) + 2
+            if (isinstance(n, ast.Assign) and len(n.targets) == 1 and isinstance(n.targets[0], ast.Name)
+                    and isinstance(n.value, ast.Attribute) and n.value.attr == "online"
+                    and isinstance(n.value.value, ast.Name) and n.value.value.id in ("ctx", "self")):
+                good.add(n.targets[0].id)
+        out = frozenset(x for x in good if stores.get(x, 0) == 1 and x not in params)
+        self.alias_cache[id(f)] = out
+        return out
 
     def cond_of(self, node):
         if isinstance(node, ast.Attribute) and node.attr == "online" and isinstance(node.value, ast.Name) and node.value.id in ("ctx", "self"):
             return ON
         if isinstance(node, ast.Name) and node.id == "online_mode" and self.online_param_ok:
             return ON
+        if isinstance(node, ast.Name) and node.id in self.online_aliases():
+            return ON
+        if (isinstance(node, ast.Call) and isinstance(node.func, ast.Name) and node.func.id == "bool"
+                and len(node.args) == 1 and not node.keywords and self.cond_of(node.args[0]) in (ON, f_not(ON))):
+            return self.cond_of(node.args[0])
+        if isinstance(node, ast.Compare) and len(node.ops) == 1 and isinstance(node.comparators[0], ast.Constant) \
+                and node.comparators[0].value in (True, False) and isinstance(node.comparators[0].value, bool):
+            inner = self.cond_of(node.left)
+            if inner in (ON, f_not(ON)):       # the mode flag is a bool (obligation on its writes)
+                want = node.comparators[0].value
+                if isinstance(node.ops[0], (ast.Is, ast.Eq)):
+                    return inner if want else f_not(inner)
+                if isinstance(node.ops[0], (ast.IsNot, ast.NotEq)):
+                    return f_not(inner) if want else inner
         if isinstance(node, ast.Constant) and node.value is True:
             return T
         if isinstance(node, ast.Constant) and node.value is False:
@@ -315,9 +482,29 @@ class Walker:
     # -- traversal ----------------------------------------------------------
     line_base = 0
 
+    @staticmethod
+    def no_fall_through(body):
+        """Can control never reach the end of this block?  (last statement returns, raises,
+        continues or breaks; or is an if/else both of whose branches cannot fall through)"""
+        if not body:
+            return False
+        last = body[-1]
+        if isinstance(last, (ast.Return, ast.Raise, ast.Continue, ast.Break)):
+            return True
+        if isinstance(last, ast.If) and last.orelse:
+            return Walker.no_fall_through(last.body) and Walker.no_fall_through(last.orelse)
+        return False
+
     def stmts(self, body, cond, fn):
         for st in body:
             self.stmt(st, cond, fn)
+            if isinstance(st, ast.If):
+                # the rest of the block runs only if the `if` statement completed normally
+                c = self.cond_of(st.test)
+                if self.no_fall_through(st.body) and not self.no_fall_through(st.orelse):
+                    cond = f_and(cond, f_not(c))
+                elif st.orelse and self.no_fall_through(st.orelse) and not self.no_fall_through(st.body):
+                    cond = f_and(cond, c)
 
     def stmt(self, st, cond, fn):
         if isinstance(st, (ast.FunctionDef, ast.AsyncFunctionDef)):
@@ -451,19 +638,22 @@ class Walker:
             self.expr(e.body, cond, fn + ["<lambda>"])
             self.fnodes.pop()
         elif isinstance(e, ast.Call):
+            if isinstance(e.func, ast.Name):
+                self.calls.append((e.func.id, cond, bool(self.line_base or (fn and fn[0].startswith("tpl ")))))
             kind, callee = self.sink_kind_of(e.func)
             if kind is not None:
                 self.record(kind, e, cond, fn, self.argkind(e), callee)
                 # the callee expression itself must not be recorded again as a bare reference
                 if isinstance(e.func, ast.Attribute):
                     self.expr_children_of_attr(e.func, cond, fn)
-            else:
+            elif not isinstance(e.func, ast.Name):
                 self.expr(e.func, cond, fn)
             for a in e.args:
                 self.expr(a, cond, fn)
             for k in e.keywords:
                 self.expr(k.value, cond, fn)
         elif isinstance(e, ast.Name):
+            self.mentions.add(e.id)
             if isinstance(e.ctx, ast.Load) and e.id in BUILTIN_SINKS and BUILTIN_SINKS[e.id] != "KSympy":
                 locs = set()
                 for f in self.fnodes:
@@ -471,6 +661,7 @@ class Walker:
                 if e.id not in locs:
                     self.record(BUILTIN_SINKS[e.id], e, cond, fn, "AUnknown", e.id, indirect=True)
         elif isinstance(e, ast.Attribute):
+            self.mentions.add(e.attr)
             d = dotted(e)
             if d is not None:
                 for rx, kind in DOTTED_SINKS:
@@ -479,6 +670,8 @@ class Walker:
                         return
             self.expr(e.value, cond, fn)
         elif isinstance(e, ast.Constant):
+            if isinstance(e.value, str):
+                self.strings.append(e.value)
             if isinstance(e.value, str) and TRIGGER.search(e.value):
                 self.code_string(e, e.value, cond, fn)
         elif isinstance(e, ast.JoinedStr):
@@ -751,25 +944,70 @@ def analyse_ctx(repo, files):
     return helpers, calls, user, mode
 
 
+def apply_helper_rule(sinks, calls, mentions, strings, module_defs):
+    """A sink inside a module-level helper H is additionally under the disjunction of the
+    path conditions of H's call sites -- when H cannot be reached any other way:
+    H is defined exactly once in vyxal/*.py, its name is private (leading underscore: not
+    picked up by `from module import *`), it is never mentioned except as the callee of a
+    direct call `H(...)` (no reference, no attribute of that name, no import of it, no
+    call inside a code string), its name occurs in no string constant (so generated code
+    cannot call it), and it has at least one call site.  Otherwise nothing is added."""
+    import re as _re
+    by_name = {}
+    for name, cond, in_string in calls:
+        by_name.setdefault(name, []).append((cond, in_string))
+    for s in sinks:
+        h = s["fn"].split(".")[0]
+        if s["fn"].startswith(("tpl ", "<")) or not h.startswith("_") or h.startswith("__"):
+            continue
+        if module_defs.get(h, 0) != 1 or h in mentions or h not in by_name:
+            continue
+        if any(in_string for _, in_string in by_name[h]):
+            continue
+        rx = _re.compile(r"(?<![A-Za-z0-9_])" + _re.escape(h) + r"(?![A-Za-z0-9_])")
+        if any(rx.search(t) for t in strings):
+            continue
+        sites = [c for c, _ in by_name[h]]
+        disj = sites[0]
+        for c in sites[1:]:
+            disj = f_or(disj, c)
+        s["cond"] = f_and(s["cond"], disj)
+        s["helper_rule"] = len(sites)
+
+
 def analyse(repo):
     files = sorted(glob.glob(os.path.join(repo, "vyxal", "*.py")))
     G.need(len(files) >= 8, "vyxal/*.py: fewer files than expected")
     atoms, sinks, writes = [], [], []
+    serial = [0]
+    calls, mentions, strings, module_defs = [], set(), [], {}
     for path in files:
         rel = "vyxal/" + os.path.basename(path)
         tree, _ = G.module_of(path)
         w = Walker(rel, atoms, sinks, writes)
+        w.serial = serial
         body = tree.body
         if body and isinstance(body[0], ast.Expr) and isinstance(body[0].value, ast.Constant) and isinstance(body[0].value.value, str):
             body = body[1:]
         w.stmts(body, T, [])
+        calls += w.calls
+        mentions |= w.mentions
+        strings += w.strings
+        for n in ast.walk(tree):
+            if isinstance(n, (ast.FunctionDef, ast.AsyncFunctionDef, ast.ClassDef)):
+                module_defs[n.name] = module_defs.get(n.name, 0) + 1
+            if isinstance(n, (ast.Import, ast.ImportFrom)):
+                for al in n.names:
+                    mentions.add((al.asname or al.name).split(".")[0])
+                    mentions.add(al.name.split(".")[-1])
+    apply_helper_rule(sinks, calls, mentions, strings, module_defs)
     sinks.sort(key=lambda s: (s["file"], s["line"], s["kind"], s["fn"]))
     atoms = []
     for s in sinks:
         atoms_of(s["cond"], atoms)
     for s in sinks:
         s["cond_text"] = show_formula(s["cond"], atoms)
-        s["guarded"] = must_false(s["cond"])
+        s["guarded"] = must_false(s["cond"]) or sat_excludes(s["cond"])
     helpers, calls, user, mode = analyse_ctx(repo, files)
     return {"sinks": sinks, "atoms": atoms, "online_writes": writes, "files": [os.path.basename(f) for f in files], "error": None,
             "ctx_helpers": {k: v for k, v in sorted(helpers.items())}, "ctx_calls": calls,
